@@ -35,6 +35,25 @@ def run(tier):
     if mc.violated:
         V.drift.append(f"module=Pager {mc.violated} violated")
     scenarios = [v for t, v in mc.printed if t == "REPLAY"]
+    # the pager protocol as a state machine: safety and termination for a pager that reads everything / stops reading and
+    # leaves / stops reading and stays; the regression (exit as soon as a write fails) must be rejected
+    allowed_logs = {}
+    proto_states = 0
+    for q in (1, 4):
+        for st in ("TRUE", "FALSE"):
+            pm = tlc.run_tlc("MC_PagerProto", cfg=f"MC_PagerProto_q{q}_{st}", workers=1, coverage=False, timeout=300)
+            tlc.require_ok(pm, "MC_PagerProto")
+            if pm.violated:
+                V.drift.append(f"module=PagerProto {pm.violated} violated (Quit={q}, Stay={st})")
+            proto_states += pm.distinct
+            for t, v in pm.printed:
+                if t == "FINALLOG":
+                    allowed_logs.setdefault((v["quits"], v["stay"]), [])
+                    if v["log"] not in allowed_logs[(v["quits"], v["stay"])]:
+                        allowed_logs[(v["quits"], v["stay"])].append(v["log"])
+    preg = tlc.run_tlc("MC_PagerProto", cfg="MC_PagerProto_regression", workers=1, coverage=False, timeout=300)
+    if preg.violated != "NoEarlyExit":
+        raise core.ToolError("MC_PagerProto_regression (exit on the first failed write) did not violate NoEarlyExit")
     log(f"[{PID}] fault space enumerated by TLC: {len(scenarios)} scenarios ({mc.distinct} states)")
     work = os.path.join(core.scratch(), "c18")
     os.makedirs(work, exist_ok=True)
@@ -157,7 +176,9 @@ def run(tier):
         events.append({"run": i, "sc": sc, "code": 999 if r.timed_out else r.code, "stderr": 1 if r.err.strip() else 0,
                        "hit": sc["quit"] > 0 and ref_writes >= sc["quit"], "pager": pager, "rflag": ("--RAW-CONTROL-CHARS" in pargs or "-R" in pargs.split("\x1f")),
                        "got": gbytes, "sent": len(ref.out), "gotHash": ghash, "sentHash": fnv(ref.out),
-                       "pagerDoneFirst": "done" in plog and "delta-exit" in plog and plog.index("done") < plog.index("delta-exit")})
+                       "pagerDoneFirst": "done" in plog and "delta-exit" in plog and plog.index("done") < plog.index("delta-exit"),
+                       "plog": [l.split(" ")[0] for l in plog if l.split(" ")[0] in ("start", "got", "done", "delta-exit")],
+                       "allowed": allowed_logs.get((sc["quit"] > 0, bool(sc["stay"])), [])})
     failed, tr = tlc.validate_trace("Trace_Pager", events)
     log(f"[{PID}] {len(events)} scenario runs judged by TLC (Trace_Pager), {len(failed)} rejected")
     for f in failed:
@@ -175,7 +196,8 @@ def run(tier):
                 "bytes; two-file and wrapped-command mode: differ/child status 0, 1, 2, 129 x consumer stays / quits; a pager that stops reading but stays "
                 "alive, with output above and below the pipe-buffer size; the same path given twice and a differ option that is rejected); each is forced "
                 "on the real binary (LD_PRELOAD write shim, stub pagers and stub git) and judged by TLC against Pager",
-        "states": mc.distinct, "transitions": mc.generated, "traces_validated_against_impl": len(events),
+        "states": mc.distinct + proto_states, "transitions": mc.generated, "traces_validated_against_impl": len(events),
+        "pager_protocol_states": proto_states, "pager_protocol_logs": {f"quits={k[0]},stays={k[1]}": v for k, v in allowed_logs.items()},
         "samples": [e["sc"] for e in events[:3]],
         "exhaustive": True,
     }, time.time() - t0, len(V.violations),
